@@ -18,6 +18,9 @@ def np_inputs(case, seed=0):
     ns = [mkdata(tuple(i["shape"]), i["dtype"], k, seed, i.get("kind", "distinct")) for k, i in enumerate(case["inputs"])]
     if case["op"] == "searchsorted":
         ns = [np.sort(ns[0]), (ns[1] % 7).astype(ns[1].dtype)]
+    if case["params"].get("alias"):
+        # one array in every argument position (the catalogue only sets this when all inputs have the same geometry and dtype)
+        ns = [ns[0]] * len(ns)
     return ns
 
 
@@ -47,6 +50,8 @@ def cubed_inputs(case, ns, spec, world):
             xs.append(cubed.from_array(a, chunks=chunks, spec=spec))
         else:
             xs.append(xp.asarray(a, chunks=chunks, spec=spec))
+        if case["params"].get("alias"):
+            return [xs[0]] * len(ns)
     return xs
 
 
